@@ -118,8 +118,14 @@ def generate(tier):
                             continue   # subtract_gs only matters if nc == na
                         cases.append(("tm", variant, cls, n, string, sub,
                                       "left"))
+        cases.append(("sum_expec", variant, variant, 0, 1))
+        cases.append(("sum_tm", variant, 0))
         cases.append(("sum_expec", variant, variant, 1, 1))
         cases.append(("sum_tm", variant, 1))
+        if variant in ("dip", "dea"):
+            # lowest class with two indices: order bookkeeping that confuses
+            # the length of the space string with the number of spaces
+            cases.append(("sum_expec", variant, variant, 2, 1))
         if variant in ("pp", "ip"):
             cases.append(("sum_expec", variant, variant, 2, 1))
             cases.append(("sum_tm", variant, 2))
